@@ -1,5 +1,5 @@
 import Witverif.Proofs.Scalar
-import Witverif.Generated.ScalarExprs
+import Witverif.Generated.ScalarExprs.MoonBit
 /-! # C14, backend `moonbit`: one theorem per scalar ABI instruction
 
 `G.moonbit_I` is the list of conversion expressions the `moonbit` generator emitted for instruction `I`
